@@ -6,7 +6,9 @@ PID = "C13"
 BOUNDS = ("statement corpus of C01/C12 incl. the mutation grammar, pseudo-op mutations (empty operand, unterminated "
           "string, stray punctuation), values symbolic over their spelling class; termination of the PCR sizing loop on "
           "the C03 templates (1-3 label,PCR statements, symbolic gaps) via the fix-point watchdog; INCLUDE of a missing "
-          "file / cycle and the CLI exit status on the in-memory host file system")
+          "file / cycle and the CLI exit status on the in-memory host file system; 14 EQU definition graphs (self "
+          "loops, rings, chains into rings, rings through expressions, labels, undefined) x 25 use sites x 2 orders and "
+          "seeded random lines, by enumeration with a wall-clock limit")
 OUTSIDE = "arbitrary random text; interpreter resource exhaustion"
 ASSUMPTIONS = ["watchdog: more than #statements+1 evaluations of the sizing-loop condition proves divergence"]
 
